@@ -737,3 +737,19 @@ def split_votes(rng, n=None, m=None, ties=False):
     rng.shuffle(D)
     return D[:m]
 
+
+
+def late_cycle(rng):
+    """6 to 8 elements that every ranking places first, in the same order, then a Condorcet cycle of 3-4 elements: the
+    non-trivial component holds the internal ids 6..11 (ids on both sides of 8, the size of the smallest set table)"""
+    lead = list(range(1, rng.randint(6, 8) + 1))
+    k = rng.randint(3, 4)
+    cyc = list(range(len(lead) + 1, len(lead) + k + 1))
+    rng.shuffle(cyc)
+    D = []
+    for j in range(k):
+        rot = cyc[j:] + cyc[:j]
+        D.append([[e] for e in lead] + [[e] for e in rot])
+    if rng.random() < .3:
+        D.append(D[0])
+    return D
